@@ -134,6 +134,7 @@ func (r *Run) Errorf(format string, a ...interface{}) {
 
 // Finish writes the result file.
 func (r *Run) Finish() {
+	CleanBatchCache()
 	sort.SliceStable(r.Res.Disagreements, func(i, j int) bool { return r.Res.Disagreements[i].Kind < r.Res.Disagreements[j].Kind })
 	b, err := json.MarshalIndent(r.Res, "", " ")
 	if err != nil {
